@@ -34,18 +34,18 @@ pub fn mutations(max: usize) -> BoxedStrategy<Vec<Mutation>> {
 
 pub const ZINC_TOKENS: &[&str] = &[
     "[", "]", "{", "}", "<<", ">>", ",", ":", "\n", "\r\n", "\r", " ", "\"", "\\", "`", "@", "^", "ver:\"3.0\"", "N", "M", "NA", "T", "F", "INF", "-INF", "NaN", "C(", ")", "-", ".", "e", "E", "_", "1",
-    "2021-01-01", "T00:00:00", "Z", " UTC", "+01:00 ", "12:00:00", "\\u00", "\\u", "\\ud83d", "\\udbff\\uffff", "\\ud800", "\\udc00", "\\uD83D\\uDE00", "\\ud83d\\u0041", "\\udbff\\u0000", "23:59:60", "12:34:60.5", "1e1_0", "$", "kW", "°F", "%", "a", "Bin(", "<", ">", "\u{0}", "\u{ff}",
+    "2021-01-01", "T00:00:00", "Z", " UTC", "+01:00 ", "12:00:00", "\\u00", "\\u", "\\ud83d", "\\udbff\\uffff", "\\ud800", "\\udc00", "\\uD83D\\uDE00", "\\ud83d\\u0041", "\\udbff\\u0000", "23:59:60", "12:34:60.5", "1e1_0", "1e+_5", "2E-_3kW", "\u{feff}", "$", "kW", "°F", "%", "a", "Bin(", "<", ">", "\u{0}", "\u{ff}",
 ];
 
 pub const JSON_TOKENS: &[&str] = &[
     "[", "]", "{", "}", ",", ":", "\"", "\\", "null", "true", "false", "\"_kind\"", "\"val\"", "\"unit\"", "\"tz\"", "\"dis\"", "\"meta\"", "\"cols\"", "\"rows\"", "\"name\"", "\"lat\"", "\"lng\"", "\"type\"",
-    "\"number\"", "\"ref\"", "\"grid\"", "\"dateTime\"", "\"marker\"", "\"dict\"", "\"xstr\"", "\"coord\"", "\"ver\"", "1", "-", ".", "e", "1e999", "\\u0000", "\"2020-01-01T00:00:00Z\"", " ",
+    "\"number\"", "\"ref\"", "\"grid\"", "\"dateTime\"", "\"marker\"", "\"dict\"", "\"xstr\"", "\"coord\"", "\"str\"", "\"bool\"", "\"list\"", "\"null\"", "\"date\"", "\"time\"", "\"uri\"", "\"symbol\"", "\"na\"", "\"remove\"", "\"Number\"", "\"2021-06-01T12:00:00+15:00\"", "\"2021-06-01T12:00:00-13:00\"", "\"2021-03-14T02:30:00-05:00\"", "\u{feff}", "\"ver\"", "1", "-", ".", "e", "1e999", "\\u0000", "\"2020-01-01T00:00:00Z\"", " ",
 ];
 
 pub const FILTER_TOKENS: &[&str] = &[
     "and", "or", "not", "(", ")", "==", "!=", "<", "<=", ">", ">=", "*==", "->", "?", "^", "@", "\"", "`", " ", "\n", "true", "false", "a", "b", "1", "2m", "-", "=", "!", "*", "2020-01-01", "12:00:00",
     "T00:00:00Z", "\\", "$", "-INF", "NaN", "^a", "@r", "a->b", "not a", "a?",
-    "\\u00", "\\u", "\\ud83d", "\\ud83d\\u0041", "\\udbff\\udbff", "\\uD83D\\uDE00", "\\udc00", "\\n", "\\$", "\"日本語日本語日本語\"", "é", "‰", "23:59:60", "1e5", "5kW",
+    "\\u00", "\\u", "\\ud83d", "\\ud83d\\u0041", "\\udbff\\udbff", "\\uD83D\\uDE00", "\\udc00", "\\n", "\\$", "\"日本語日本語日本語\"", "é", "‰", "23:59:60", "1e5", "5kW", "1e+_5", "2E-_3kW", "1e-_", "\u{feff}",
 ];
 
 /// Apply one mutation to a byte string.
